@@ -174,6 +174,10 @@ class SR:
     @staticmethod
     def _div(a, b):
         ctx.vc_nonzero(b)
+        r = ctx.cur()
+        if r is not None and getattr(r, "poly_div", False) and not (z3.is_rational_value(b) or z3.is_int_value(b)):
+            # division by a symbolic term as multiplication by ONE shared inverse symbol per distinct divisor
+            return toreal(a) * ctx.inverse(toreal(b))
         return toreal(a) / toreal(b)
 
     def __truediv__(self, o): return self._bin(o, SR._div)
